@@ -20,7 +20,7 @@ ENGINES = [
 NOTES = ("Exit 0 = held on everything explored; exit 1 + VIOLATION line = counterexample saved under replays/<id>/new/; "
          "exit 2 = the check itself is unusable (build failure), never reported as a violation. known_findings.json lists fixed/known findings.")
 # properties whose check is finished, passes on the unchanged tree and is therefore claimed in MANIFEST.json
-CLAIMED = ["C01", "C03", "C04", "C05", "C06", "C07", "C08", "C09", "C10", "C11", "C12", "C13", "C14", "C15", "C16", "C17", "C18", "C19", "C20"]
+CLAIMED = ["C01", "C02", "C03", "C04", "C05", "C06", "C07", "C08", "C09", "C10", "C11", "C12", "C13", "C14", "C15", "C16", "C17", "C18", "C19", "C20"]
 NOT_APPLICABLE = {}
 CHECKS = {
     "C01": dict(
